@@ -6,6 +6,8 @@ CONSTANTS
   Miuxs = {0, 1, 1024, 2047}
   Rws = {0, 1, 2, 3, 4, 5, 6, 7, 8, 9, 10, 11, 12, 13, 14, 15}
   Sym = {0, 65, 128, 255}
+  MemSapCodes = {0, 32, 65, 96, 4032, 4033, 319}
+  FrmrSapCodes = {0, 127, 2052, 4095}
   Alpha = {0}
 INVARIANT RoundTrip
 INVARIANT LenAgrees
